@@ -81,7 +81,62 @@ fn run_builtin(method: &str, args: &[P]) -> String {
     out
 }
 
+fn item(p: &P) -> String {
+    // "<Kind>:<hexbits>" in the vocabulary of the vector files (Nil, Some<K>, plain kinds)
+    let s = show(p);
+    let t: Vec<&str> = s.split_whitespace().collect();
+    format!("{}:{}", t[1], t[2])
+}
+
+/// optional-value kernels: full observable effect = operand stack, stored local, jump signal
+fn run_optional(ins: &str, iarg: Option<&str>, args: &[P]) -> String {
+    use crate::function::InstructionExitState as X;
+    let function = Function::new(Weak::new(), "verif".to_string(), Box::new([]));
+    let stack = Rc::new(RefCell::new(Stack::new()));
+    stack.borrow_mut().extend(Cow::Borrowed("verif"));
+    let mut ctx = Ctx::new(&function, stack, Cow::Owned(vec![]), None);
+    for a in args {
+        ctx.push(a.clone());
+    }
+    let iargs: Vec<String> = iarg.iter().map(|s| s.to_string()).collect();
+    let r = match ins {
+        "equ" => imp::equ(&mut ctx, &iargs),
+        "neq" => imp::neq(&mut ctx, &iargs),
+        "unwrap" => imp::unwrap(&mut ctx, &iargs),
+        "unwrap_into" => imp::unwrap_into(&mut ctx, &iargs),
+        "jmp_not_nil" => imp::jmp_not_nil(&mut ctx, &iargs),
+        _ => panic!("optional instr {ins}"),
+    };
+    let out = match r {
+        Err(_) => "ERR".to_string(),
+        Ok(()) => {
+            let mut parts = vec!["STACK".to_string()];
+            for p in ctx.get_local_operating_stack().iter() {
+                parts.push(item(p));
+            }
+            if ins == "unwrap_into" {
+                if let Ok(pair) = ctx.load_local(iarg.unwrap()) {
+                    parts.push(format!("STORE {} {}", iarg.unwrap(), item(&pair.primitive())));
+                }
+            }
+            match ctx.poll() {
+                X::Goto(n) => parts.push(format!("SIGNAL Goto:{}", n)),
+                X::NoExit => {}
+                _ => parts.push("SIGNAL Other:0".to_string()),
+            }
+            parts.join(" ")
+        }
+    };
+    std::mem::forget(ctx);
+    out
+}
+
 pub fn eval_ext(op: &str, args: &[P]) -> String {
+    if let Some(rest) = op.strip_prefix("O:") {
+        let mut it = rest.splitn(2, ':');
+        let ins = it.next().unwrap();
+        return run_optional(ins, it.next(), args);
+    }
     if let Some(m) = op.strip_prefix("B:") {
         return run_builtin(m, args);
     }
